@@ -115,7 +115,7 @@ def native_replay(ob, args, trace=False, twin=False):
     env = dict(os.environ)
     if trace:
         env['VERIF_TRACE'] = '1'
-    cmd = [PY, DRIVER, ob['module'], ob['fn'], json.dumps(ob['cfg']), '0', '--native', json.dumps(args)]
+    cmd = [PY, DRIVER, ob['module'], ob.get('replay_fn', ob['fn']), json.dumps(ob['cfg']), '0', '--native', json.dumps(args)]
     if twin:
         cmd.append('--twin')
     try:
@@ -216,7 +216,7 @@ def main():
     twins = []
     seen = set()
     for o in obs:
-        if o['group'] not in seen:
+        if o['group'] not in seen and o.get('kind') != 'concrete':
             seen.add(o['group'])
             t = dict(o)
             t['twin'] = True
@@ -238,6 +238,9 @@ def main():
     functions = set()
     herrs = []
     by_status = {}
+    vacuous_twins = []
+    twin_errs = []
+    main_status = {}
     os.makedirs(os.path.join(ROOT, 'replays', pid), exist_ok=True)
     for ob, res in results:
         status = res.get('status')
@@ -248,26 +251,32 @@ def main():
             if status == 'REFUTED':
                 args = next((m['args'] for m in res['messages'] if m.get('args') is not None), None)
                 if args is None:
-                    herrs.append('twin %s: counterexample args not parseable: %s' % (ob['name'], res['messages']))
+                    twin_errs.append((ob['name'][:-5], 'twin %s: counterexample args not parseable: %s' % (ob['name'], res['messages'])))
                     continue
                 nat = native_replay(ob, args, trace=True, twin=True)
                 if nat.get('returned') is not False:
                     # twin sample must reach the end natively too
-                    herrs.append('twin %s: sample %s does not reach the final assertion natively (%s)' % (ob['name'], args, nat))
+                    twin_errs.append((ob['name'][:-5], 'twin %s: sample %s does not reach the final assertion natively (%s)' % (ob['name'], args, nat)))
                     continue
                 functions.update(nat.get('functions', []))
                 if len(samples) < 12:
                     samples.append({'obligation': ob['name'][:-5], 'cfg': ob['cfg'], 'args': args,
                                     'note': 'reachability-twin witness: reaches the final assertion'})
             elif status == 'CONFIRMED':
-                herrs.append('vacuous: no input reaches the final assertion of %s' % ob['name'])
+                vacuous_twins.append(ob['name'][:-5])
             elif status == 'HARNESS_ERROR':
-                herrs.append('twin %s: %s' % (ob['name'], res.get('error', '')[-600:]))
+                twin_errs.append((ob['name'][:-5], 'twin %s: %s' % (ob['name'], res.get('error', '')[-600:])))
             else:
                 inconclusive.append(ob['name'])
             continue
+        if status == 'REFUTED' and not any(m['state'] in ('POST_FAIL', 'EXEC_ERR', 'POST_ERR') for m in res.get('messages', [])):
+            # e.g. PRE_UNSAT because every path hit the time budget: inconclusive, never a verdict
+            status = 'UNKNOWN'
         by_status[status] = by_status.get(status, 0) + 1
+        main_status[ob['name']] = status
         cov['evaluations'] += res.get('paths', 0) or 0
+        cov['concrete_vectors'] = cov.get('concrete_vectors', 0) + (res.get('concrete_vectors', 0) or 0)
+        cov['translator_validation_cases'] = cov.get('translator_validation_cases', 0) + (res.get('validated', 0) or 0)
         cov['distinct_nontrivial'] += res.get('reached_end', 0) or 0
         if status == 'CONFIRMED':
             if not res.get('reached_end'):
@@ -289,7 +298,7 @@ def main():
             digest = hashlib.sha1(json.dumps([ob['name'], args], sort_keys=True).encode()).hexdigest()[:10]
             kf = match_known(known, ob['name'], reason)
             rp = os.path.join(ROOT, 'replays', pid, ('known-' if kf else '') + re.sub(r'[^A-Za-z0-9_.-]', '_', ob['name']) + '-' + digest + '.json')
-            json.dump({'property': pid, 'obligation': ob['name'], 'module': ob['module'], 'fn': ob['fn'], 'cfg': ob['cfg'],
+            json.dump({'property': pid, 'obligation': ob['name'], 'module': ob['module'], 'fn': ob.get('replay_fn', ob['fn']), 'cfg': ob['cfg'],
                        'args': args, 'observed': nat, 'crosshair_message': msgs[0]['message'] if msgs else None,
                        'replay_cmd': './vcheck replay ' + os.path.relpath(rp, ROOT)}, open(rp, 'w'), indent=1)
             if kf:
@@ -302,6 +311,13 @@ def main():
             cov['inconclusive'] += 1
             inconclusive.append(ob['name'])
 
+    for nm, msg in twin_errs:
+        if main_status.get(nm) == 'CONFIRMED':
+            herrs.append(msg)
+    for nm in vacuous_twins:
+        # a twin that cannot reach the end is an error only if the obligation itself claims success
+        if main_status.get(nm) == 'CONFIRMED':
+            herrs.append('vacuous: no input reaches the final assertion of %s' % nm)
     wall = time.time() - t0
     cov['solver_time_s'] = round(cov['solver_time_s'], 2)
     cov['rule'] = ('one case = one path symbolically executed through harness + real code (inputs on that path are '
@@ -331,16 +347,18 @@ def main():
     log('[%s/%s] %s in %.0fs: discharged %d/%d, inconclusive %d, paths %d (non-trivial %d), solver %d queries %.1fs'
         % (pid, tier, by_status, wall, cov['discharged'], cov['obligations'], cov['inconclusive'], cov['evaluations'],
            cov['distinct_nontrivial'], cov['solver_queries'], cov['solver_time_s']))
+    if violations:
+        for n, r, rp, a in violations[:20]:
+            print('VIOLATION property=%s replay=%s' % (pid, rp))
+            log('  %s: %s args=%s' % (n, r, a))
+        for h in herrs[:5]:
+            log('HARNESS-ERROR (in addition)', h[:300])
+        sys.exit(1)
     if herrs:
         for h in herrs[:10]:
             log('HARNESS-ERROR', h)
         print('HARNESS-ERROR property=%s %d harness errors (first: %s)' % (pid, len(herrs), herrs[0][:400]))
         sys.exit(2)
-    if violations:
-        for n, r, rp, a in violations[:20]:
-            print('VIOLATION property=%s replay=%s' % (pid, rp))
-            log('  %s: %s args=%s' % (n, r, a))
-        sys.exit(1)
     print('OK property=%s tier=%s obligations=%d discharged=%d inconclusive=%d known=%d wall=%.0fs'
           % (pid, tier, cov['obligations'], cov['discharged'], cov['inconclusive'], len(seen_k), wall))
     sys.exit(0)
